@@ -1,17 +1,34 @@
 _SNMP = ["lib/snmplib/asn1.c", "lib/snmplib/snmp_msg.c", "lib/snmplib/snmp_pdu.c", "lib/snmplib/snmp_vars.c", "lib/snmplib/snmp_api.c",
          "lib/snmplib/snmp_api_error.c", "lib/snmplib/snmp_error.c", "lib/snmplib/snmplib_debug.c", "lib/snmplib/coexistance.c"]
+_SK = "skeleton = a well-formed 43-octet SNMPv1 GET (community 'public', one binding 1.3.6.1.4.1.3495.1.1.1.0 = NULL) with 2 fully symbolic octets per template; "
+_NONEG = "; INTEGER contents with the sign bit set are left to c39_snmp_negint"
 SPEC = dict(
     harness="C39_snmp.cc",
     units=_SNMP,
+    scope="kernel",
+    scope_note="kernel decided: everything snmpDecodePacket() runs on a received datagram up to and including decoding - snmp_pdu_create, snmp_parse (snmp_msg_Decode, asn_parse_*, snmp_pdu_decode, snmp_var_DecodeVarBind), snmp_coexist_V2toV1, reading of every decoded variable, snmp_free_pdu, xfree(community) - is memory-safe and terminates, for datagrams within the bounds, in a zero-padded receive buffer as snmpHandleUdp() provides it; gap: the snmp_access ACL check, snmpAgentResponse/MIB tree walk and response encoding, comm I/O, the SMP forwarder; the ICP (icp_v2.cc/icp_v3.cc) and HTCP (htcp.cc) handlers, whose unpackers are entangled with HttpRequest/Store/comm and are not encoded; 'stop serving HTTP'",
     entries=dict(
         quick=[
-            dict(name="c39_snmp_any", bounds="x", reach=["rejected"]),
-            dict(name="c39_snmp_header", bounds="x", reach=["rejected", "parsed_vars"]),
-            dict(name="c39_snmp_pdu", bounds="x", reach=["rejected", "parsed_vars"]),
-            dict(name="c39_snmp_vars", bounds="x", reach=["rejected", "parsed_vars"]),
+            dict(name="c39_snmp_any", bounds="every datagram of 0..5 fully symbolic octets" + _NONEG, reach=["rejected"], sample_every=97),
+            dict(name="c39_snmp_header", bounds=_SK + "6 templates: outer type+length; version type+length; version value + community type; community length + an octet inside it; long-form (0x81) lengths of the message and the community; a community of up to 130 octets with symbolic length (Squid's buffer holds 128); datagram lengths 0..16 and full" + _NONEG, reach=["rejected", "parsed_vars"], sample_every=797),
+            dict(name="c39_snmp_pdu", bounds=_SK + "5 templates: PDU type+length; request-id type+length; error-status length+value; GETBULK max-repetitions length+value; v1 TRAP layout (enterprise OID length, time-stamp length+value); datagram lengths 13..27 and full" + _NONEG, reach=["rejected", "parsed_vars"], sample_every=797),
+            dict(name="c39_snmp_vars", bounds=_SK + "8 templates: binding-list type+length; binding type+length; name type+length; first sub-identifier + a continuation octet; value type+length; value type+length+2 content octets (every value type); two bindings with symbolic value type/length/content; a name of up to 71 sub-identifiers with symbolic length (MAX_NAME_LEN is 64); datagram lengths 24..43 and full" + _NONEG, reach=["rejected", "parsed_vars"], sample_every=797),
+            dict(name="c39_snmp_negint", bounds=_SK + "symbolic content octets (negative values included) at every position decoded as an integer: version; request-id/error-status/error-index; GETBULK counts; TRAP generic/specific/time-stamp; a binding value of symbolic type with 2 content octets; full length only; interpreter only (no native differential replay: the native UBSan build stops at asn_parse_int's left shift of a negative int)", reach=["rejected", "parsed_vars"], max_samples=0),
+            dict(name="c39_known_maxlen_overread", known=True, bounds="KNOWN FINDING C39-snmp-maxlen-overread only: the real buffer discipline with the real sizes (4096 zeroed octets, 4095 received): a well-formed GET with 407 bindings whose last binding's value is an OCTET STRING header with a symbolic long-form length octet (0x81..0x84) as the very last octet of the datagram; strict memory-safety oracle; its violations are listed in known_findings.json and printed as KNOWN-FINDING", reach=[], max_samples=0, sample_every=0),
         ],
-        thorough=[]),
+        thorough=[
+            dict(name="c39_snmp_any", bounds="every datagram of 0..7 fully symbolic octets" + _NONEG, reach=["rejected"], sample_every=997),
+            dict(name="c39_snmp_header", bounds="as quick plus 3 templates with 2-3 symbolic octets (message length octets, version length+value, community length+content)" + _NONEG, reach=["rejected", "parsed_vars"], sample_every=997),
+            dict(name="c39_snmp_pdu", bounds="as quick plus 2 templates (PDU length + request-id; TRAP enterprise OID content, agent-address length)" + _NONEG, reach=["rejected", "parsed_vars"], sample_every=997),
+            dict(name="c39_snmp_vars", bounds="as quick plus 3 templates (value with 3 content octets; name length + 3 name octets; nested length octets)" + _NONEG, reach=["rejected", "parsed_vars"], sample_every=997),
+            dict(name="c39_snmp_negint", bounds="as quick", reach=["rejected", "parsed_vars"], max_samples=0),
+            dict(name="c39_known_maxlen_overread", known=True, bounds="KNOWN FINDING C39-snmp-maxlen-overread only: the real buffer discipline with the real sizes (4096 zeroed octets, 4095 received): a well-formed GET with 407 bindings whose last binding's value is an OCTET STRING header with a symbolic long-form length octet (0x81..0x84) as the very last octet of the datagram; strict memory-safety oracle; its violations are listed in known_findings.json and printed as KNOWN-FINDING", reach=[], max_samples=0, sample_every=0),
+        ]),
     timeout=dict(quick=400, thorough=1800),
-    stubs=[],
-    outside="",
+    stubs=["receive buffer model: heap block of len+6 octets, datagram followed by 6 zero octets (snmpHandleUdp memsets a 4096-octet buffer and receives at most 4095; faithful for datagrams of at most 4090 octets)",
+           "snmplib_debug_hook set to a no-op (Squid installs a debugs() wrapper)", "xmalloc/xfree = engine heap (allocation never fails)",
+           "harness pre-splits (exhaustively, no assumption) the BER length octets so that the decoder's pointers are concrete on every path"],
+    assumptions=["excluded by the buffer model: a datagram of 4091..4095 octets whose last object header ends in the last octets makes asn_parse_header/asn_parse_length read 1-3 octets behind snmpHandleUdp's static 4096-octet buffer (KNOWN FINDING C39-snmp-maxlen-overread: examined by c39_known_maxlen_overread with the real sizes, excluded from all other entries by the buffer model)",
+                 "natively replayed entries leave out negative INTEGER encodings (asn_parse_int shifts a negative int left: undefined in C, flagged by UBSan, harmless in practice); c39_snmp_negint explores them in the interpreter"],
+    outside="datagrams other than the short fully symbolic ones and the listed skeleton families; more than two bindings; allocation failure; everything listed as gap in scope_note",
 )
